@@ -123,6 +123,9 @@ struct Net {
     misroute: bool,
     /// seconds the clients' clocks are ahead of the server's
     client_skew: u64,
+    /// tokens carry a negative timeout (= timeouts disabled, as documented): nothing ever times out, but keep-alives, handshake
+    /// retries and disconnect datagrams work as ever. Only in gentle cases (nobody is meant to time out there anyway).
+    timeouts_disabled: bool,
     /// RV_DEBUG: per-tick state on stderr (replaying a case by hand)
     debug: bool,
     /// the server's part of the next tick is given this duration instead of the tick length (a frame that took very long)
@@ -163,7 +166,7 @@ impl Net {
         let auth = if self.unsecure {
             ClientAuthentication::Unsecure { protocol_id: PROTO, client_id: id, server_addr: self.front_addr, user_data: Some(ud) }
         } else {
-            let token = ConnectToken::generate(self.now, PROTO, if self.short_tokens { 2 * self.timeout_s + 4 } else { 600 }, id, self.timeout_s as i32, match first_address {
+            let token = ConnectToken::generate(self.now, PROTO, if self.short_tokens { 2 * self.timeout_s + 4 } else { 600 }, id, if self.timeouts_disabled { -1 } else { self.timeout_s as i32 }, match first_address {
                 1 => vec![self.dead_addr, self.front_addr],
                 2 => vec!["[::1]:9".parse().unwrap(), self.front_addr],
                 _ => vec![self.front_addr],
@@ -637,7 +640,7 @@ impl Property for C20 {
         "fault_enumeration"
     }
     fn rule(&self) -> String {
-        "A case runs the real NetcodeServerTransport and 1-3 NetcodeClientTransports (secure authentication with generated tokens, or in some cases the Unsecure development mode of both transports) (plus reconnecting client objects with new tokens; some tokens list a silent address before the real one, so the client fails over first) on loopback UDP sockets through an in-path relay that the harness thread pumps after every transport call. Relay fault decision per (client, direction, datagram): forward / drop / duplicate / delay 1-6 ticks (hence reorder) / flip one bit / forward and replay an old datagram of that link; whole-silence periods (in some cases the datagrams for the client then arrive from another source port of the relay's host instead of being dropped, while its own datagrams may still reach the server, which a client transport must treat as silence: after timeout + 3 ticks of it the client is disconnected); application traffic on all three default channels in both directions and broadcasts; disconnects decided by RenetClient::disconnect, NetcodeClientTransport::disconnect, RenetServer::disconnect, NetcodeServerTransport::disconnect_all, by silence (timeouts) and by the receiving message layer itself while it processes a datagram (a peer sends more than the receiver's budget of the extra channel 3, or on a channel only the sender knows); reconnects; the client limit raised and lowered at run time (the transport's max_clients() reads back what was set); in some cases a local (in-process) client connected to the same RenetServer; 'aged' cases start the message layer's packet counters at 2^40 so that full slices make the largest datagrams; messages are also submitted while the handshake still runs; a second client object of a connected id may start while the first is alive, or two objects of one id start together and the one that got in quits at a planned tick within the other's response timeout; single server frames longer than the timeout; in some cases tokens expire 2 * timeout + 4 s after they were minted, so sessions outlive their token. Oracles: right after every NetcodeServerTransport::update the ids the message layer reports connected equal the ids the netcode layer holds (client_addr, connected_clients), no disconnected connection is left, and equal the ids open in the ServerEvent stream, which alternates per id and only names ids that hold a token; every message obtained over the full stack satisfies the ordered-prefix / unordered-at-most-once / unreliable-membership oracles of its session; after the faults stop and timeout + 3 s of fault-free ticks every session for which a disconnect was decided anywhere has ended on both sides, and every session that stayed healthy has obtained all reliable messages; in 'gentle' cases (no disconnect operation, no silence, at least one genuine datagram per direction forwarded in every third of the timeout) nobody is ever disconnected whatever else the relay does, and at the end every client is connected in both layers on both sides; a transport update never reports 'nothing more to read' (WouldBlock) as an error. Non-trivial: at least one corrupted or replayed datagram after a handshake completed and at least one relay fault. Distinct = hash of the decoded operation trace.".into()
+        "A case runs the real NetcodeServerTransport and 1-3 NetcodeClientTransports (secure authentication with generated tokens, or in some cases the Unsecure development mode of both transports) (plus reconnecting client objects with new tokens; some tokens list a silent address before the real one, so the client fails over first) on loopback UDP sockets through an in-path relay that the harness thread pumps after every transport call. Relay fault decision per (client, direction, datagram): forward / drop / duplicate / delay 1-6 ticks (hence reorder) / flip one bit / forward and replay an old datagram of that link; whole-silence periods (in some cases the datagrams for the client then arrive from another source port of the relay's host instead of being dropped, while its own datagrams may still reach the server, which a client transport must treat as silence: after timeout + 3 ticks of it the client is disconnected); application traffic on all three default channels in both directions and broadcasts; disconnects decided by RenetClient::disconnect, NetcodeClientTransport::disconnect, RenetServer::disconnect, NetcodeServerTransport::disconnect_all, by silence (timeouts) and by the receiving message layer itself while it processes a datagram (a peer sends more than the receiver's budget of the extra channel 3, or on a channel only the sender knows); reconnects; the client limit raised and lowered at run time (the transport's max_clients() reads back what was set); in some cases a local (in-process) client connected to the same RenetServer; 'aged' cases start the message layer's packet counters at 2^40 so that full slices make the largest datagrams; messages are also submitted while the handshake still runs; a second client object of a connected id may start while the first is alive, or two objects of one id start together and the one that got in quits at a planned tick within the other's response timeout; single server frames longer than the timeout; in some cases tokens expire 2 * timeout + 4 s after they were minted, so sessions outlive their token; some gentle cases run with tokens whose timeout is negative (timeouts disabled: keep-alives, retries and the final liveness clause work as ever). Oracles: right after every NetcodeServerTransport::update the ids the message layer reports connected equal the ids the netcode layer holds (client_addr, connected_clients), no disconnected connection is left, and equal the ids open in the ServerEvent stream, which alternates per id and only names ids that hold a token; every message obtained over the full stack satisfies the ordered-prefix / unordered-at-most-once / unreliable-membership oracles of its session; after the faults stop and timeout + 3 s of fault-free ticks every session for which a disconnect was decided anywhere has ended on both sides, and every session that stayed healthy has obtained all reliable messages; in 'gentle' cases (no disconnect operation, no silence, at least one genuine datagram per direction forwarded in every third of the timeout) nobody is ever disconnected whatever else the relay does, and at the end every client is connected in both layers on both sides; a transport update never reports 'nothing more to read' (WouldBlock) as an error. Non-trivial: at least one corrupted or replayed datagram after a handshake completed and at least one relay fault. Distinct = hash of the decoded operation trace.".into()
     }
     fn assumptions(&self) -> Vec<String> {
         vec![
@@ -650,7 +653,7 @@ impl Property for C20 {
         PbtCfg { cases: tier.pick(30_000, 300_000), max_len: tier.pick(1200, 5000), shrink_ms: 120_000 }
     }
     fn required_labels(&self) -> Vec<&'static str> {
-        vec!["relay_corrupt", "relay_replay", "relay_drop", "relay_dup", "relay_delay", "client_disconnect", "transport_disconnect", "server_disconnect", "disconnect_all", "timeout_by_silence", "gentle_case", "reconnect", "event_connected", "event_disconnected", "e2e_messages", "poison_to_client", "poison_to_server", "server_msg_layer_disconnect", "client_msg_layer_disconnect", "silent_first_address", "unsecure_authentication", "local_client", "limit_changed", "aged_counters", "unreachable_first_address", "second_object_same_id", "sent_while_connecting", "server_long_frame", "short_lived_tokens", "misrouted_during_silence", "one_way_silence", "twin_objects_same_id"]
+        vec!["relay_corrupt", "relay_replay", "relay_drop", "relay_dup", "relay_delay", "client_disconnect", "transport_disconnect", "server_disconnect", "disconnect_all", "timeout_by_silence", "gentle_case", "reconnect", "event_connected", "event_disconnected", "e2e_messages", "poison_to_client", "poison_to_server", "server_msg_layer_disconnect", "client_msg_layer_disconnect", "silent_first_address", "unsecure_authentication", "local_client", "limit_changed", "aged_counters", "unreachable_first_address", "second_object_same_id", "sent_while_connecting", "server_long_frame", "short_lived_tokens", "misrouted_during_silence", "one_way_silence", "twin_objects_same_id", "timeouts_disabled"]
     }
     fn run_choices(&self, ctx: &mut Ctx) -> Outcome {
         let seed16 = ctx.src.u16() as u64;
@@ -691,6 +694,10 @@ impl Property for C20 {
         if gentle {
             ctx.label("gentle_case");
         }
+        let timeouts_disabled = gentle && !unsecure && (seed16 >> 6) % 6 == 0;
+        if timeouts_disabled {
+            ctx.label("timeouts_disabled");
+        }
         let st = NetcodeServerTransport::new(
             ServerConfig { current_time: now, max_clients: 4, protocol_id: PROTO, public_addresses: vec![front_addr], authentication: if unsecure { ServerAuthentication::Unsecure } else { ServerAuthentication::Secure { private_key: key(1) } } },
             ssock,
@@ -715,6 +722,7 @@ impl Property for C20 {
             short_tokens,
             misroute,
             client_skew,
+            timeouts_disabled,
             debug: std::env::var("RV_DEBUG").is_ok(),
             server_dt_once: None,
             timeout_s,
@@ -733,7 +741,7 @@ impl Property for C20 {
         ctx.op(&(n0, timeout_s, tick_ms, gentle, unsecure, aged));
         for i in 0..n0 {
             // some tokens list a silent address first: the client connects to the real one only after failing over
-            let silent_first = !unsecure && timeout_s <= 3 && ctx.src.chance(40);
+            let silent_first = !unsecure && timeout_s <= 3 && ctx.src.chance(40) && !timeouts_disabled;
             let kind = if !silent_first {
                 0
             } else if ctx.src.chance(90) {
